@@ -31,8 +31,10 @@ MODEL_NOTES = [
     "tokio replaced by /verif/env/tokio-model (single-threaded waker-free channels, scripted sockets with nondeterministic read segmentation, virtual clock, in-memory tokio::fs, select! with nondeterministic start branch)",
     "rand replaced by /verif/env/rand-model (every draw nondeterministic)",
     "reqwest replaced by /verif/env/reqwest-model (scripted tracker outcomes)",
+    "bytes replaced by /verif/env/bytes-model (Vec-backed BytesMut with the documented advance/put_slice contract)",
     "std::collections::HashMap replaced by /verif/env/std-model association list (insertion-order iteration)",
     "std::fs in extractor.rs/metainfo.rs replaced by /verif/env/std-model in-memory fs",
+    "the five field-less message structs get one unobservable padding byte in the scratch copy (works around a CBMC 6.11 crash on zero-sized values held across an await)",
 ]
 
 
@@ -129,6 +131,7 @@ def build_scratch(scratch):
         "rand": 'rand = { package = "rand-model", path = "%s/rand-model" }' % env,
         "reqwest": 'reqwest = { package = "reqwest-model", path = "%s/reqwest-model" }' % env,
         "tokio": 'tokio = { package = "tokio-model", path = "%s/tokio-model" }' % env,
+        "bytes": 'bytes = { package = "bytes-model", path = "%s/bytes-model" }' % env,
     }
     for dep, line in subs.items():
         toml, n = re.subn(r"(?m)^%s\s*=.*$" % dep, line, toml)
@@ -149,6 +152,12 @@ def build_scratch(scratch):
             o = t
             t = t.replace("use std::collections::HashMap;", "use std_model::HashMap;")
             t = t.replace("::std::collections::HashMap::new()", "::std_model::HashMap::new()")
+            # CBMC 6.11 aborts ("l2_rename_rvalues case `struct' not handled") when a zero-sized
+            # message value lives across an await point; give the five field-less messages one
+            # unobservable padding byte in the scratch copy (data() never reads it).
+            for zst in ("KeepAlive", "Choke", "Unchoke", "Interested", "NotInterested"):
+                t = t.replace("pub struct %s {}" % zst, "pub struct %s { pub(crate) _verif_pad: u8 }" % zst)
+                t = re.sub(r"\b%s \{\}" % zst, "%s { _verif_pad: 0 }" % zst, t)
             if f in ("extractor.rs", "metainfo.rs"):
                 t = t.replace("use std::fs;", "use std_model::fs;")
                 t = t.replace("use std::fs::File;", "use std_model::fs::File;")
